@@ -28,12 +28,34 @@ ERR = {"t": nfc.clf.TimeoutError, "x": nfc.clf.TransmissionError, "p": nfc.clf.P
        "o": nfc.clf.BrokenLinkError, "c": nfc.clf.CommunicationError}
 
 
+class Clock(object):
+    """virtual clock standing in for the `time` module of the nfc.tag modules: an exchange that ends
+    in a timeout takes the whole `timeout` given to clf.exchange, every other exchange a millisecond"""
+
+    def __init__(self, start=1000.0):
+        self.now = start
+
+    def time(self):
+        return self.now
+
+    def sleep(self, seconds):
+        self.now += max(0.0, seconds)
+
+    def monotonic(self):
+        return self.now
+
+    def __getattr__(self, name):            # anything else (strftime ...) from the real module
+        import time
+        return getattr(time, name)
+
+
 class Air(object):
     max_recv_data_size = 256
     max_send_data_size = 256
 
     def __init__(self, sim):
         self.sim = sim
+        self.clock = Clock()
         self.script = []
         self.log = []          # (token, letter) per exchange, "|" between primitive calls, ("!", errno) per TagCommandError
         self.raw = []          # command octets per exchange
@@ -54,11 +76,14 @@ class Air(object):
         att = self.script.pop(0) if self.script else "a"
         if len(self.log) > self.limit:
             raise RuntimeError("retry_sims: command budget exceeded (endless loop?)")
+        step = 0.001 if timeout is None else min(0.001, timeout)
         if att in "0123":
             rsp = self.sim.command(data)
             self.log.append((token, att))
             if rsp is None:
+                self.clock.sleep(timeout or 0)
                 raise nfc.clf.TimeoutError
+            self.clock.sleep(step)
             rsp = bytearray(rsp)
             if att == "0":
                 return bytearray()
@@ -71,12 +96,15 @@ class Air(object):
             rsp = self.sim.command(data)
             if rsp is None:
                 self.log.append((token, "m"))      # the tag stays mute
+                self.clock.sleep(timeout or 0)
                 raise nfc.clf.TimeoutError
             self.log.append((token, "a"))
+            self.clock.sleep(step)
             return bytearray(rsp)
         self.log.append((token, att))
         if att.isupper():
             self.sim.command(data)
+        self.clock.sleep((timeout or 0) if att in "tT" else step)
         raise ERR[att.lower()]
 
     def sense(self, *targets, **kw):
@@ -383,6 +411,7 @@ class SimT4(object):
         self.sel = None
         self.bn = 1
         self.last = None
+        self.chain = b""
         self.applied = []
         self.log_apdu = []
         self.target = nfc.clf.RemoteTarget("106A", sens_res=bytearray(b"\x44\x03"), sel_res=bytearray(b"\x20"),
@@ -395,6 +424,8 @@ class SimT4(object):
             return "rats"
         if pcb & 0xC0 == 0:
             a = d[1:]
+            if len(a) < 4 or a[0] != 0:
+                return "cont"               # continuation of a chained command
             ins = a[1] if len(a) > 1 else 0
             if ins == 0xA4:
                 return "sel" + ("A" if a[2] == 4 else bytes(a[5:7]).hex())
@@ -439,7 +470,12 @@ class SimT4(object):
             if pcb & 1 == self.bn:          # not the expected block number: rule 11 does not apply, ignore
                 return None
             self.bn ^= 1
-            self.last = bytes([0x02 | self.bn]) + self.apdu(bytes(d[1:]))
+            self.chain += bytes(d[1:])
+            if pcb & 0x10:                  # command chaining: acknowledge, wait for the rest
+                self.last = bytes([0xA2 | self.bn])
+                return self.last
+            apdu, self.chain = self.chain, b""
+            self.last = bytes([0x02 | self.bn]) + self.apdu(apdu)
             return self.last
         if pcb & 0xF6 == 0xB2:              # R(NAK)
             if pcb & 1 == self.bn and self.last is not None:
@@ -484,6 +520,8 @@ def build(kind):
         sim = SimLite(NDEF0 * 3)
     elif kind == "t4":
         sim = SimT4(NDEF0 * 5)
+    elif kind == "t4chain":
+        sim = SimT4(NDEF0 * 5, mle=255, mlc=255, mfs=2048)     # UPDATE BINARY of 255 octets = two ISO-DEP blocks
     elif kind == "t4slow":
         sim = SimT4(NDEF0 * 2, fwi=11)         # frame waiting time 0.62 s: one R(NAK) retry only
     else:
@@ -493,4 +531,4 @@ def build(kind):
     return sim, air, tag
 
 
-KINDS = ["t2", "t2big", "ul", "ulc", "ntag203", "ntag213", "t3", "t3std", "lite", "t1s", "t1d", "topaz", "topaz512", "t4", "t4slow"]
+KINDS = ["t2", "t2big", "ul", "ulc", "ntag203", "ntag213", "t3", "t3std", "lite", "t1s", "t1d", "topaz", "topaz512", "t4", "t4slow", "t4chain"]
